@@ -4,7 +4,7 @@
    The theorems say: whatever program the verifier accepts is safe on EVERY execution; the check
    then runs the extracted verifier on every function the real compiler emits (as compiled,
    tree-shaken, merged into an environment) — translation validation. *)
-From Quiver Require Import vm.Wf vm.WfProofs vm.WfRun vm.WfExamples.
+From Quiver Require Import vm.Wf vm.WfProofs vm.WfRun vm.WfExamples vm.Tables.
 
 (* the extracted verifier's answer is a certificate the proved checker accepts *)
 Theorem C07_verifier_output_checked : forall P As, verify_program P = Some As -> check_program P As = true.
@@ -37,3 +37,14 @@ Theorem C07_nonvacuous : exists As, check_program good_prog As = true /\
   Inv good_prog As (init_state 1 [VFun 0 []] (VInt 5%Z) false).
 Proof. exact wf_sound_applies. Qed.
 Print Assumptions C07_nonvacuous.
+
+(* indices that occur INSIDE the tables (a type mentioning a type or tuple id, a tuple field type,
+   a builtin signature, a function's callable type) are in range whenever the table check passes *)
+Theorem C07_tables_ok_spec : forall t, tables_ok t = true ->
+  (forall tys tups, In (tys, tups) (tb_types t) ->
+     (forall x, In x tys -> x < length (tb_types t)) /\ (forall x, In x tups -> x < length (tb_tuples t))) /\
+  (forall fs, In fs (tb_tuples t) -> forall x, In x fs -> x < length (tb_types t)) /\
+  (forall p r, In (p, r) (tb_builtins t) -> p < length (tb_types t) /\ r < length (tb_types t)) /\
+  (forall x, In x (tb_fn_types t) -> x < length (tb_types t)).
+Proof. exact tables_ok_spec. Qed.
+Print Assumptions C07_tables_ok_spec.
